@@ -226,8 +226,16 @@ Definition spec_call (w : world) (c : call) : option (list (outcome res * list (
            end
     else None
   | EqOther o => if has_obj w o then Some [ (Val (RBool false), []) ] else None
+  (* wait_procs([o], timeout=0): a process still in the table is not reported gone -- also when os.kill/waitpid
+     in the caller's namespace do not see its PID (foreign procfs); a process gone whose PID nobody has is.
+     (gone but the PID recycled: wait() waits for whoever has the PID -- C15's subject, no demand) *)
+  | WaitProcs o vis =>
+    if has_obj w o && negb (no_identity w o) && negb (memz (g_pid w o) (denied w)) && (0 <? g_pid w o)
+    then if alive w (g_inc w o) then Some [ (Val (RBool false), []) ]
+         else match owner w (g_pid w o) with None => Some [ (Val (RBool true), []) ] | Some _ => None end
+    else None
   | Ppid _ | CreateTime _ | BootTime | ProcIter | NewPopen _ | OneshotEnter _ | OneshotExit _ | AsDict _
-  | SetProbe _ | SetAct _ _ | Wait _ | IterStart | IterNext _ => None
+  | SetProbe _ | SetAct _ _ | Wait _ _ | IterStart | IterNext _ => None
   end.
 
 (* histories in which no process_iter() generator is resumed while other calls go on
